@@ -30,7 +30,47 @@ func VerifC02_history() {
 		return items
 	}
 	for s := 0; s < steps; s++ {
-		switch vfChoice(vfName("op", s), 8) {
+		nops := 8
+		if s == steps-1 {
+			nops = 10 // copying a live cell / one very wide row: as the last step of the history
+		}
+		switch vfChoice(vfName("op", s), nops) {
+		case 8: // a live cell copied by value out of an attached row and added to another created row
+			var srcs []*vfShadowRow
+			for _, sr := range attached {
+				if !sr.sep && sr.cells > 0 {
+					srcs = append(srcs, sr)
+				}
+			}
+			if len(srcs) == 0 || len(all) == 0 {
+				vfAssume(false)
+			}
+			src := srcs[vfChoice(vfName("src", s), len(srcs))]
+			var c Cell
+			if vfChoice(vfName("how", s), 2) == 0 {
+				c = src.ptr.Cells()[0]
+			} else {
+				pc, _ := t.CellAt(CellLocation{Row: src.ptr.Location().Row, Column: 1})
+				c = *pc
+			}
+			dst := all[vfChoice(vfName("j", s), len(all))]
+			dst.ptr.Add(c)
+			if !dst.sep {
+				dst.cells++
+			}
+			vfTag("cell-copied-between-rows")
+		case 9: // one wide row: the table grows past its initial column capacity in one step
+			n := 10
+			items := make([]interface{}, n)
+			for i := range items {
+				items[i] = "w"
+			}
+			t.AddRowItems(items...)
+			rows := t.AllRows()
+			sr := &vfShadowRow{ptr: rows[len(rows)-1], cells: n, attached: true}
+			all = append(all, sr)
+			attached = append(attached, sr)
+			vfTag("wide-row")
 		case 0: // AddHeaders
 			items := mkItems(s)
 			t.AddHeaders(items...)
@@ -187,7 +227,10 @@ func VerifC02_history() {
 		}
 	}
 
-	// ---- column handles exist exactly for 0..NColumns
+	// ---- column handles exist exactly for 0..NColumns (each of them, concretely, as well)
+	for i := 0; i <= wantCols; i++ {
+		vfAssert(t.Column(i) != nil, "column-handle-for-every-column")
+	}
 	n := vfAnyInt("col")
 	col := t.Column(n)
 	inRange := vfAnd(n >= 0, n <= wantCols)
